@@ -63,6 +63,7 @@ type JobResult struct {
 	LoopFuncs  map[string]bool
 	Wall       time.Duration
 	PathData   []PathResult
+	RaceChecks int
 	MaxTrace   int
 	Notes      []string
 	Err        string
@@ -250,6 +251,7 @@ func (r *Runner) runJob(job Job, st *Store, sol *Solver) (jr JobResult) {
 	jr.GlobalW = e.globalW
 	jr.GlobalR = e.globalR
 	jr.LoopFuncs = e.loopFuncs
+	jr.RaceChecks = e.raceChecks
 	return
 }
 
